@@ -11,12 +11,24 @@
    outermost trace present among its arguments and (b) whatever the tags,
    kinds and nesting of the arguments, the value it returns is the raw function
    of the underlying numbers; plus (c) the depth counter never decreases and is
-   restored by every normally returning call.  Missing: the abstraction
-   argument relating boxes to tower elements (forward towers) and the
-   simulation of the backward pass at each level (reverse nodes). *)
+   restored by every normally returning call.
+   PROVED HERE (full statement on the forward-mode fragment):
+   C08_forward_nesting_correct - for every program without Grad (arbitrarily
+   nested Deriv, closures over any enclosing variable, Let, IfPos on traced
+   values, sign, Fail/Try), from every counter value >= -1 and under every
+   non-negative interference: the tagged evaluator returns v exactly when the
+   tower semantics returns strip v, and raises exactly when it raises.  The
+   proof (FwdCorrect.v, FwdStep.v, FwdEval.v) is the abstraction argument: a
+   boxed value is interpreted, relative to the list of active trace ids, as an
+   element of the tower; the primitive wrapper (find_top, unboxing, JVP rules run
+   through the wrapper, tangent accumulation) is shown to compute the tower
+   operation at every level by induction on the list of levels, and eval by
+   induction on fuel.
+   Missing: the same for reverse nodes (simulation of the backward pass at each
+   level); for programs with Grad the equality is tied by correspondence. *)
 From Coq Require Import List ZArith.
 Import ListNotations.
-From AG Require Import Toposort Tagged Tower Run08 TaggedProof.
+From AG Require Import Toposort Tagged Tower Run08 TaggedProof TowerAlg FwdCorrect FwdStep FwdEval.
 
 Theorem C08_outermost_level_selected_partial :
   forall (K : Type) (args : list (value K)) t k,
@@ -36,6 +48,24 @@ Theorem C08_primal_unaffected_by_tags_partial :
     raw K kadd ksub kmul kopp kF ksign p (map (strip K) args) = Val (strip K v).
 Proof. exact apply_prim_transparent. Qed.
 Print Assumptions C08_primal_unaffected_by_tags_partial.
+
+Theorem C08_forward_nesting_correct :
+  forall fuel e (s : state Z),
+    fwd_only e = true -> (-1 <= top Z s)%Z -> calm Z s ->
+    match fst (zeval_sup Mono fuel [] e s) with
+    | Val v => eval_spec e 0 [] = Some (strip Z v)
+    | Err _ => eval_spec e 0 [] = None
+    | OutOfFuel => True
+    end.
+Proof. exact forward_fragment_correct. Qed.
+Print Assumptions C08_forward_nesting_correct.
+
+(* the classical perturbation-confusion program is inside the fragment and the
+   evaluator modelled is /repo's *)
+Example C08_forward_premises :
+  fwd_only (Deriv (App2 PMul (Var 0) (Deriv (App2 PMul (App2 PMul (Var 1) (Var 0)) (Var 0)) (Const 3))) (Const 2)) = true
+  /\ SUPPLY = Mono /\ (-1 <= top Z (init_state Z))%Z /\ calm Z (init_state Z).
+Proof. repeat split; try reflexivity; try discriminate; constructor. Qed.
 
 (* non-vacuity and the classical confusion examples, decided by computation:
    d/dx [x * d/dy (x*y*y) at y=3] at x=2 is 24 under all four mode assignments *)
